@@ -1,0 +1,21 @@
+//go:build !verif
+
+// Package simhook marks the points where a deterministic simulator may take
+// control of goroutine scheduling.  Without the build tag "verif" every
+// function is empty and is inlined away.
+package simhook
+
+// Yield marks a point between two critical sections.
+func Yield(point string) {}
+
+// Wait marks a blocking receive on a close-only channel.
+func Wait(ch <-chan struct{}, point string) {}
+
+// Spawn announces that a goroutine identified by key is about to be started.
+func Spawn(key interface{}) {}
+
+// GoStart is the first call of a goroutine announced with Spawn.
+func GoStart(key interface{}) {}
+
+// GoEnd is the last call of a goroutine announced with Spawn.
+func GoEnd() {}
